@@ -432,9 +432,17 @@ def gen_case(rng, quick, allow_findings=True):
     nctx = rng.randint(2, 4)
     npoints = rng.randint(1, 4)
     hier = rng.random() < 0.4            # hierarchies deeper than two levels: points re-declared in intermediate classes
-    nclasses = rng.randint(3, 7) if hier else rng.randint(1, 5)
+    # "chain": 3-6 registrations, one after another, of ONE spec name for the SAME context (each possibly bound to
+    # several contexts), other specs' registrations interleaved in the same class bodies, the focus name not first
+    # in the class body; evaluated under that context after EVERY registration step
+    chain = (not hier) and rng.random() < 0.45
+    nclasses = rng.randint(3, 7) if hier else rng.randint(3, 6) if chain else rng.randint(1, 5)
     if hier and rng.random() < 0.5:
         nctx, npoints = 2, rng.randint(1, 2)
+    focus = None
+    if chain:
+        npoints = rng.randint(2, 4)
+        focus = {"name": rng.randint(1, npoints - 1), "ctx": rng.randrange(nctx)}
     # execution contexts: 55% of the histories have contexts DERIVED from other contexts (two- and three-level
     # chains, siblings under one parent); a derived context is a key of its own in the broker
     ctx_parent = [-1] * nctx
@@ -486,13 +494,16 @@ def gen_case(rng, quick, allow_findings=True):
                 parent = rng.choice(mids)
             elif earlier and r < 0.68:
                 parent = rng.choice(earlier)
-        elif earlier and rng.random() < 0.12:
+        elif earlier and not chain and rng.random() < 0.12:
             parent = rng.choice(earlier)              # a grandchild: registers against nothing
         entries = []
         registry[ci] = set()
         if hier and rng.random() < 0.8 and registry[parent]:
             names = [k for k in sorted(registry[parent]) if rng.random() < 0.85] or [rng.choice(sorted(registry[parent]))]
             names += [k for k in range(npoints + 1) if k not in names and rng.random() < 0.15]
+        elif chain:
+            names = [k for k in range(npoints + 1) if k == focus["name"] and rng.random() < 0.92 or
+                     k != focus["name"] and rng.random() < (0.8 if k == 0 else 0.55 if k < npoints else 0.15)]
         else:
             names = [k for k in range(npoints + 1) if rng.random() < (0.75 if k < npoints else 0.15)]
         if not names:
@@ -501,7 +512,20 @@ def gen_case(rng, quick, allow_findings=True):
             r = rng.random()
             e = {"name": name, "cid": None, "ctxs": [], "helper": None, "pdep": None}
             p_point = (0.85 if ci < n_mid else 0.08) if hier else 0.03
-            if rng.random() < p_point:
+            if chain and name == focus["name"]:
+                x = focus["ctx"]
+                others = [c for c in range(nctx) if c != x]
+                rr = rng.random()
+                if rr < 0.45:
+                    e["kind"], e["ctxs"] = "single", [x]
+                elif rr < 0.75:
+                    e["kind"], e["ctxs"] = "group", rng.sample([x, rng.choice(others)], 2)
+                elif rr < 0.92:
+                    e["kind"], e["helper"] = "via", nid()
+                    e["ctxs"] = [x] if rng.random() < 0.6 else rng.sample([x, rng.choice(others)], 2)
+                else:
+                    e["kind"], e["ctxs"] = "single", [rng.choice(others)]       # one for another context in between
+            elif rng.random() < p_point:
                 e["kind"] = "point"
                 registry[ci].add(name)
             elif allow_findings and r < 0.04:
@@ -529,7 +553,7 @@ def gen_case(rng, quick, allow_findings=True):
                 wired_names.add(name)
         classes.append({"parent": parent, "entries": entries})
     return {"nctx": nctx, "serialized": ctx_special == "serialized", "ctx_special": ctx_special, "ctx_parent": ctx_parent,
-            "npoints": npoints, "classes": classes}
+            "npoints": npoints, "classes": classes, "focus": focus}
 
 
 def gen_outcome(rng, world, style):
@@ -563,7 +587,11 @@ def check_world(chk, report, rng, case, lines, impl, cases, runs_per_ctx):
     lines.extend(world.header_lines())
     n = len(case["classes"])
     evals_at = {}
-    if n >= 2 and rng.random() < 0.85:
+    focus = case.get("focus")
+    if focus:
+        for k in range(1, n):
+            evals_at[k] = 1                  # after EVERY registration step, under the focus context
+    elif n >= 2 and rng.random() < 0.85:
         for _ in range(rng.randint(1, 3)):
             k = rng.randint(1, n - 1)
             evals_at[k] = evals_at.get(k, 0) + 1
@@ -597,6 +625,8 @@ def check_world(chk, report, rng, case, lines, impl, cases, runs_per_ctx):
             chk.count("evaluation:" + ("interleaved(before-later-classes)" if what == "prefix-run" else
                                        "after-whole-history" + ("+earlier-evaluations" if evals_at else "")))
             if len(active) == 1:
+                tl = max([len([e for e in f["members"] if active[0] in A.walk[e["cid"]]]) for f in A.families.values()] or [0])
+                chk.count("evaluation:longest-handler-list-for-the-active-context:%s" % (tl if tl < 6 else "6+"))
                 for key, f in A.families.items():
                     if len(f["points"]) > 1 and f["members"]:
                         levels = set(next(p for p in f["points"] if any(x is e for x in A.wired[p])) for e in f["members"])
@@ -608,13 +638,20 @@ def check_world(chk, report, rng, case, lines, impl, cases, runs_per_ctx):
         new = world.define_next()
         lines.extend(world.class_lines(ci, walk, new))
         script.append({"def": ci})
-        for _ in range(evals_at.get(ci + 1, 0)):
-            r = rng.random()
-            active = [rng.randrange(world.nctx)] if r < 0.85 else [] if r < 0.9 else sorted(rng.sample(range(world.nctx), 2))
+        if ci < n - 1:
+            # dr.IGNORE of every implementation and the dependency order of every point after EVERY registration step
             lines.append(world.reg_line())
             impl.append(world.reg_text())
             cases.append({"case": case, "what": "prefix-registration", "classes-created": world.defined})
-            evaluate(active, rng.choice(["all-v", "one-bad", "random"]), "prefix-run")
+        for _ in range(evals_at.get(ci + 1, 0)):
+            r = rng.random()
+            if focus:
+                active = [focus["ctx"]]
+                style = rng.choice(["all-v", "latest-bad", "all-v", "random"])
+            else:
+                active = [rng.randrange(world.nctx)] if r < 0.85 else [] if r < 0.9 else sorted(rng.sample(range(world.nctx), 2))
+                style = rng.choice(["all-v", "one-bad", "random"])
+            evaluate(active, style, "prefix-run")
     # registration after the whole history
     lines.append(world.reg_line())
     impl.append(world.reg_text())
@@ -640,6 +677,13 @@ def check_world(chk, report, rng, case, lines, impl, cases, runs_per_ctx):
             evaluate(active, ["all-v", "latest-bad", "one-bad", "random"][j % 4], "run")
     if chk is not None:
         chk.count("history:%d-interleaved-evaluations" % sum(evals_at.values()))
+        if focus:
+            chk.count("history:chain-of-registrations-of-one-spec-for-one-context")
+        for f in A.families.values():
+            for c in range(world.nctx):
+                ln = len([e for e in f["members"] if c in A.walk[e["cid"]]])
+                if ln:
+                    chk.count("handler-list-length(per spec and context, whole history):%s" % (ln if ln < 6 else "6+"))
         depth = max([len(A.chain(ci)) for ci in range(n)] or [0]) + 1
         chk.count("history:class-hierarchy-depth-%d" % min(depth, 5))
         chk.count("history:" + ("with-redeclared-points" if any(len(f["points"]) > 1 for f in A.families.values()) else "points-in-root-only"))
@@ -664,6 +708,66 @@ def check_world(chk, report, rng, case, lines, impl, cases, runs_per_ctx):
 
 
 # --------------------------------------------------------------------------- shipped spec sets
+
+def live_declared(Specs):
+    """for every implementation wired to a registry point of the shipped Specs: the execution contexts in its
+    dependency tree AT THE MOMENT ITS CLASS WAS CREATED, reconstructed through the public dr API only
+    (dr.get_dependencies, dr.get_delegate(point).deps) — classes in creation order, a registry point passed on
+    the way contributes only the implementations wired to it before.  Nothing of the implementation's own
+    handler bookkeeping is read."""
+    wired = {}
+
+    def walk(f):
+        seen, ctxs, stack = set(), set(), [f]
+        while stack:
+            x = stack.pop()
+            if isinstance(x, RegistryPoint):
+                ds = list(dr.get_delegate(x).deps[:wired.get(x, 0)])
+            else:
+                try:
+                    ds = list(dr.get_dependencies(x))
+                except Exception:
+                    ds = []
+            for d in ds:
+                try:
+                    if d in seen:
+                        continue
+                    seen.add(d)
+                except TypeError:
+                    continue
+                if isinstance(d, type) and issubclass(d, ExecutionContext):
+                    ctxs.add(d)
+                stack.append(d)
+        return ctxs
+    declared = {}
+    for cls in Specs.__subclasses__():
+        for k, v in cls.__dict__.items():
+            if isinstance(v, SpecDescriptor) and is_datasource(v.func) and not isinstance(v.func, RegistryPoint) \
+                    and k in Specs.registry:
+                declared[v.func] = walk(v.func)
+                wired[Specs.registry[k]] = wired.get(Specs.registry[k], 0) + 1
+    return declared
+
+
+def handler_table_shape(Specs):
+    """defensive look at the implementation's internal per-spec/per-context handler table: None when it has the
+    shape the model mirrors (name -> context -> LIST of implementations), else a description.  Used for nothing
+    but this remark: no stream and no oracle reads the table."""
+    try:
+        table = getattr(Specs, "context_handlers", None)
+        if table is None:
+            return "Specs.context_handlers is gone"
+        for n, per_ctx in list(table.items()):
+            if not hasattr(per_ctx, "items"):
+                return "context_handlers[%r] is a %s, not a mapping" % (n, type(per_ctx).__name__)
+            for ctx, hs in list(per_ctx.items()):
+                if not isinstance(hs, (list, tuple)):
+                    return "context_handlers[%r][%s] is a %s, not a list of implementations" % (
+                        n, getattr(ctx, "__name__", ctx), type(hs).__name__)
+        return None
+    except Exception as ex:
+        return "context_handlers cannot be read: %s: %s" % (type(ex).__name__, ex)
+
 
 def live_stream(chk):
     """registration structure of insights.specs.Specs and every spec set extending it, through the model"""
@@ -693,12 +797,12 @@ def live_stream(chk):
         return out
     subs = list(Specs.__subclasses__())
     grand = [g for s in subs for g in s.__subclasses__()]
-    # "declared for": the execution contexts each implementation is a registered handler of
-    handler_of = {}
-    for n, per_ctx in Specs.context_handlers.items():
-        for ctx, hs in per_ctx.items():
-            for f in hs:
-                handler_of.setdefault(f, set()).add(ctx)
+    # "declared for": the execution contexts in each implementation's dependency tree when it was registered
+    handler_of = live_declared(Specs)
+    shape = handler_table_shape(Specs)
+    if shape is not None:
+        chk.tie_broken("registration-shape", "the internal handler table no longer has the shape the model mirrors (%s); "
+                       "the behavioural streams and oracles do not read it and are evaluated as usual" % shape, None)
     lines = ["new"]
     for n, p in Specs.registry.items():
         lines.append("point\t%d\t%d" % (names[n], ids[p]))
@@ -840,7 +944,11 @@ def run(chk):
                 "(chains of up to 4 re-declarations, gaps in the chain, new top-level points in subclasses) and implementations are "
                 "attached at different levels in both registration orders, for the same and for different contexts; the parents "
                 "chain handed to the model is read off the real cls.__mro__; the value is checked at EVERY level's registry point; "
-                "execution contexts form a CLASS HIERARCHY in 55% of the histories (contexts derived from other contexts: two- and "
+                "27% of the histories are CHAINS: 3-6 registrations one after another of one spec name for the same context "
+                "(single / list / through-helper bindings, one for another context in between), other specs interleaved in the same "
+                "class bodies, the focus name not first in the body, an evaluation under that context after EVERY registration step; "
+                "dr.IGNORE of every implementation and the dependency order of every point are compared with the model after EVERY "
+                "class definition; execution contexts form a CLASS HIERARCHY in 55% of the histories (contexts derived from other contexts: two- and "
                 "three-level chains, siblings, the shipped HostContext/JBossContext(HostContext) pair, ExecutionContext itself as a "
                 "key; implementations for a parent, for a derived one, for lists mixing both; every context active in turn); "
                 "1-4 root registry points plus a non-point attribute, implementations bound to fresh ExecutionContext "
@@ -868,8 +976,10 @@ def run(chk):
         "driver on every generated history (H=ok in the registration streams), not proved from the fold in general",
         "the flat model (theorems registration_lists .. point_value_partial) and the hierarchical model are both evaluated by "
         "the driver on histories where only the root declares points and must agree (flat=agree in every compared line)",
-        "shipped spec sets: registration order of the classes = Specs.__subclasses__() order; 'declared for' = membership in "
-        "Specs.context_handlers (the implementation's own bookkeeping), so this stream checks the rule given that bookkeeping",
+        "shipped spec sets: registration order of the classes = Specs.__subclasses__() order; 'declared for' = the execution "
+        "contexts in the implementation's dependency tree when its class was created, reconstructed through the public dr API "
+        "(time-aware walk); the implementation's internal context_handlers table is not read by any stream or oracle (only its "
+        "shape is looked at, defensively, and a change of shape is recorded as broken correspondence 'registration-shape')",
     ]
     chk.lean()
     # ---- witnesses of the known findings (corpus first)
@@ -927,10 +1037,9 @@ def live_rule(name, ctx_name):
     import insights.specs.core3_archive     # noqa: F401
     import insights.specs.jdr_archive       # noqa: F401
     deps = dr.get_delegate(Specs.registry[name]).deps
-    per_ctx = Specs.context_handlers.get(name, {})
-    ctx = [c for c in per_ctx if c.__name__ == ctx_name]
-    decl = [d for d in deps if ctx and d in per_ctx[ctx[0]]]
-    allowed = [d for d in decl if ctx[0] not in dr.IGNORE.get(d, ())]
+    declared = live_declared(Specs)
+    decl = [d for d in deps if any(c.__name__ == ctx_name for c in declared.get(d, ()))]
+    allowed = [d for d in decl if not any(c.__name__ == ctx_name for c in dr.IGNORE.get(d, ()))]
     return decl, allowed
 
 
